@@ -59,8 +59,9 @@ func (sl *serialWriter) Write(al plugintypes.AuditLog) error {
 		return nil
 	}
 
-	sl.logger.Println(string(bts))
-	return nil
+	// Output reports the error of the underlying writer (Println would swallow it), so a failed
+	// audit write reaches the caller, which logs it.
+	return sl.logger.Output(2, string(bts))
 }
 
 var _ plugintypes.AuditLogWriter = (*serialWriter)(nil)
